@@ -736,3 +736,13 @@ M("C13", "density-matrix correlation second axis counted from i", "kill", [(SCBF
 M("C13", "mirror entry copied from the diagonal", "kill", [(SCBF, "            correlation[i, j] = state_diag_ni_nj.sum().real\n            correlation[j, i] = correlation[i, j]", "            correlation[i, j] = state_diag_ni_nj.sum().real\n            correlation[j, i] = correlation[i, i]")], "OBSDEF-axis")
 M("C13", "twin: leading axes of the pair view merged differently", "twin", [(SCBF, "            select_i = select_i.view(2**i, 2 ** (j - i - 1), 2, -1)\n            select_ij = select_i[:, :, 1, :]", "            select_i = select_i.view(2 ** (j - 1), 2, -1)\n            select_ij = select_i[:, 1, :]")])
 M("C13", "twin: occupation view with the explicit trailing size", "twin", [(SCBF, "        state_tensor = state.data.view(2**i, 2, -1)\n", "        state_tensor = state.data.view(2**i, 2, 2 ** (nqubits - i - 1))\n")])
+M("C25", "dark-atom branch gated by the config's noise model", "kill",
+  [(IMPL, "        if self.pulser_data.state_prep_error > 0.0:", "        if self.config.noise_model.state_prep_error > 0.0:")], "DARK-mps")
+M("C25", "dark-atom branch gated by a constructor flag read from the config", "kill",
+  [(IMPL, "        self.has_lindblad_noise = len(pulser_data.lindblad_ops) > 0\n", "        self.has_lindblad_noise = len(pulser_data.lindblad_ops) > 0\n        self.has_state_prep_error = self.config.noise_model.state_prep_error > 0.0\n"),
+   (IMPL, "        if self.pulser_data.state_prep_error > 0.0:", "        if self.has_state_prep_error:")], "DARK-mps")
+M("C25", "emu-sv dark-atom branch gated by the config's noise model", "kill",
+  [(SVI, "        if self._data.state_prep_error > 0.0:", "        if self._config.noise_model.state_prep_error > 0.0:")], "DARK-sv")
+M("C25", "twin: dark-atom branch gated by a constructor flag read from the sequence data", "twin",
+  [(IMPL, "        self.has_lindblad_noise = len(pulser_data.lindblad_ops) > 0\n", "        self.has_lindblad_noise = len(pulser_data.lindblad_ops) > 0\n        self.has_state_prep_error = pulser_data.state_prep_error > 0.0\n"),
+   (IMPL, "        if self.pulser_data.state_prep_error > 0.0:", "        if self.has_state_prep_error:")])
